@@ -504,7 +504,6 @@ fn run_repeated(plan: &Value, rec: &mut Rec) {
         let c1 = thread_cpu_seconds();
         let _ = guard(|| parse(&quarter));
         let t_quarter = (thread_cpu_seconds() - c1).max(1e-4);
-        rec.count("probe:time-scaling-evaluated");
         if t_full > 10.0 * t_quarter {
             rec.violation(
                 "time-not-linear",
@@ -1002,7 +1001,6 @@ fn run_armor_lines(plan: &Value, rec: &mut Rec) {
         let c1 = thread_cpu_seconds();
         let _ = guard(|| armor_parse_all(&quarter, cap));
         let t_quarter = (thread_cpu_seconds() - c1).max(1e-4);
-        rec.count("probe:time-scaling-evaluated");
         if t_full > 10.0 * t_quarter {
             rec.violation(
                 "time-not-linear",
